@@ -23,7 +23,12 @@ let handle (_dbg : bool) (toks : string list) : string =
       (match Model.confirmed_input !q (z_of_int (int_of_string f)) with
        | Model.Ok pi -> "ok " ^ zs pi.Model.pi_frame ^ " " ^ zs pi.Model.pi_val
        | _ -> "panic")
-  | ["discard"; f] -> q := Model.discard_confirmed_frames !q (z_of_int (int_of_string f)); "ok"
+  | ["discard"; f] ->
+      (* `self.length -= offset` is usize arithmetic: the model keeps the length in Z (coq/Queue.v), and a negative
+         result is the dev profile's "attempt to subtract with overflow" - reachable only by discarding below an
+         earlier discard, which no session does (confirmed frames are monotone) but this level's scripts may *)
+      let q' = Model.discard_confirmed_frames !q (z_of_int (int_of_string f)) in
+      if _dbg && int_of_z q'.Model.q_length < 0 then "panic" else (q := q'; "ok")
   | ["reset"] -> q := Model.reset_prediction !q; "ok"
   | ["delay"; d] ->
       (match Model.set_frame_delay !q (z_of_int (int_of_string d)) with
